@@ -1,4 +1,5 @@
 import StimModel.Core.Circuit
+import StimModel.Core.Dem
 /-! Wire format of the line protocol (DESIGN §10): token streams for circuits, bit strings, Pauli strings. -/
 namespace Stim.Wire
 open Stim
@@ -48,6 +49,68 @@ def parseOps : Nat → List String → Option (List Op × String × List String)
 
 def parseCircuit (toks : List String) : Option (Circuit × List String) := do
   let (ops, term, rest) ← parseOps (toks.length + 1) toks
+  if term == "." then pure (ops, rest) else none
+
+def parseDTarget (t : String) : Option DTarget :=
+  match t.toList with
+  | ['^'] => some .sep
+  | 'D' :: r => (String.ofList r).toNat?.map .det
+  | 'L' :: r => (String.ofList r).toNat?.map .obs
+  | _ => none
+
+def takeTargets : Nat → List String → Option (List DTarget × List String)
+  | 0, ts => some ([], ts)
+  | k+1, t :: ts => do
+      let v ← parseDTarget t
+      let (vs, rest) ← takeTargets k ts
+      pure (v :: vs, rest)
+  | _, [] => none
+
+/-- parse DEM ops until `x` or `.` -/
+def parseDemOps : Nat → List String → Option (List DemOp × String × List String)
+  | 0, _ => none
+  | fuel+1, toks =>
+    match toks with
+    | "." :: rest => some ([], ".", rest)
+    | "x" :: rest => some ([], "x", rest)
+    | "e" :: p :: tag :: nt :: rest => do
+        let pb ← p.toNat?
+        let n ← nt.toNat?
+        let (ts, rest1) ← takeTargets n rest
+        let (ops, term, rest2) ← parseDemOps fuel rest1
+        pure (DemOp.error pb (unhex tag) ts :: ops, term, rest2)
+    | "d" :: na :: rest => do
+        let n ← na.toNat?
+        let (args, rest1) ← takeNats n rest
+        match rest1 with
+        | tag :: t :: rest2 => do
+            let tt ← parseDTarget t
+            let (ops, term, rest3) ← parseDemOps fuel rest2
+            pure (DemOp.detector args (unhex tag) tt :: ops, term, rest3)
+        | _ => none
+    | "l" :: tag :: t :: rest => do
+        let tt ← parseDTarget t
+        let (ops, term, rest1) ← parseDemOps fuel rest
+        pure (DemOp.logical (unhex tag) tt :: ops, term, rest1)
+    | "s" :: na :: rest => do
+        let n ← na.toNat?
+        let (args, rest1) ← takeNats n rest
+        match rest1 with
+        | tag :: k :: rest2 => do
+            let kk ← k.toNat?
+            let (ops, term, rest3) ← parseDemOps fuel rest2
+            pure (DemOp.shift args (unhex tag) kk :: ops, term, rest3)
+        | _ => none
+    | "r" :: cnt :: tag :: rest => do
+        let n ← cnt.toNat?
+        let (body, term, rest1) ← parseDemOps fuel rest
+        if term != "x" then none else
+        let (ops, term2, rest2) ← parseDemOps fuel rest1
+        pure (DemOp.rep n (unhex tag) body :: ops, term2, rest2)
+    | _ => none
+
+def parseDem (toks : List String) : Option (Dem × List String) := do
+  let (ops, term, rest) ← parseDemOps (toks.length + 1) toks
   if term == "." then pure (ops, rest) else none
 
 def bitsOf (s : String) : List Bool := if s == "-" then [] else s.toList.map (· == '1')
